@@ -75,20 +75,24 @@ def generate(tier, rng):
     # maxDifference and must come out exactly on the reference time (grid of binary64 neighbours, maxDifference 0.05)
     for _ in range(150 if tier == "quick" else 4000):
         ref = gen.random_itier(rng, name="ref", tmax=30, maxn=4) if rng.random() < 0.6 else gen.random_ptier(rng, name="ref", tmax=30, maxn=4)
+        odd = {}
         for e in ref["entries"]:
             for k in range(len(e) - 1):
-                e[k] = 2 * e[k]
+                # the reference time itself may be the odd neighbour (one choice per time: touching entries stay touching)
+                if e[k] not in odd:
+                    odd[e[k]] = 1 if rng.random() < 0.3 else 0
+                e[k] = 2 * e[k] + odd[e[k]]
         ref["min"], ref["max"] = 0, 60
         rt = sorted(set(x for e in ref["entries"] for x in e[:-1]))
         tiers = [ref]
         for j in range(rng.randint(1, 2)):
             if rng.random() < 0.5 and len(rt) >= 2:
                 ks = sorted(rng.sample(rt, 2 * (len(rt) // 2)))
-                ents = [[ks[i] + rng.choice([0, 1]), ks[i + 1] + rng.choice([0, 1]), "l%d" % i] for i in range(0, len(ks), 2)]
+                ents = [[ks[i] - ks[i] % 2 + rng.choice([0, 1]), ks[i + 1] - ks[i + 1] % 2 + rng.choice([0, 1]), "l%d" % i] for i in range(0, len(ks), 2)]
                 ents = [e for e in ents if e[0] < e[1]]
                 t = {"kind": "I", "name": "i%d" % j, "entries": ents, "min": 0, "max": 60}
             else:
-                ents = [[x + rng.choice([0, 1, 1]), "m"] for x in rt]
+                ents = [[x - x % 2 + rng.choice([0, 1, 1]), "m"] for x in rt]
                 t = {"kind": "P", "name": "p%d" % j, "entries": ents, "min": 0, "max": 60}
             tiers.append(t)
         rng.shuffle(tiers)
@@ -211,7 +215,11 @@ def py_checks(case, r):
         for t, got in zip(case["tiers"], v["tiers"]):
             if t["name"] == case["args"]["ref"]:
                 continue
-            want = [[(x - 1 if (x % 2 and (x - 1) in rt) else x) for x in e[:-1]] + [e[-1]] for e in t["entries"]]
+            def snap(x):
+                # the binary64 neighbour of x (the other tick of its pair) is a reference time: x lands on it
+                other = x + 1 if x % 2 == 0 else x - 1
+                return other if (x not in rt and other in rt) else x
+            want = [[snap(x) for x in e[:-1]] + [e[-1]] for e in t["entries"]]
             if got["entries"] != want:
                 fails.append("tier %s: times one ulp off a reference time were not moved onto it: %r, expected %r" % (t["name"], got["entries"][:3], want[:3]))
     for nm, got, exp in zip(v["names"], v["tiers"], v["per_tier"]):
